@@ -6,7 +6,7 @@
      spec_ok  : the decidable specification, evaluated on the IMPLEMENTATION's answer
    Nothing here is proved; it is extracted to OCaml and run by the harness. *)
 From Coq Require Import List Arith NArith Bool.
-From MR Require Import Lib.Bytes Lib.Val Model.Index Model.Dag Model.Git Model.Tracking Model.CfgFile Model.Sched.
+From MR Require Import Lib.Bytes Lib.Val Model.Index Model.Dag Model.Git Model.Tracking Model.CfgFile Model.Sched Model.Plan.
 Import ListNotations.
 Open Scope nat_scope.
 
@@ -442,6 +442,33 @@ Definition check_sched (v : val) : val :=
   let agree := finished && Bool.eqb (failed s) impl_failed && val_eqb (enc m_res) (enc impl_res) in
   VL [eB true; VL [enc m_res; eB (failed s); eB finished; enat (exit_status s)]; eB agree; eB agree].
 
+
+(* ---------- C11: argv and command resolution ---------- *)
+Definition dCmdmap (v : val) : cmdmap := map (fun e => (dStr (dNth e 0), dStrs (dNth e 1))) (dL v).
+(* input: files [(target, name, cmdmap)], use_base, names, targets, run_args option (t, c, args),
+          queries [(t, c, impl argv, def path option, dir entries, impl resolved (option (explicit?, path/name)), compare argv?)] *)
+Definition check_plan (v : val) : val :=
+  let files := map (fun e => (dStr (dNth e 0), dStr (dNth e 1), dCmdmap (dNth e 2))) (dL (dNth v 0)) in
+  let file (t n : str) : option cmdmap :=
+    match find (fun '(t', n', _) => str_eqb t' t && str_eqb n' n) files with Some (_, _, cm) => Some cm | None => None end in
+  let use_base := dB (dNth v 1) in
+  let names := dStrs (dNth v 2) in
+  let targets := dStrs (dNth v 3) in
+  let run_args := dOpt (fun e => (dStr (dNth e 0), dStr (dNth e 1), dStrs (dNth e 2))) (dNth v 4) in
+  let tb := build_table (run_loads file use_base names targets run_args) in
+  let answers := map (fun q =>
+      let t := dStr (dNth q 0) in let c := dStr (dNth q 1) in
+      let m_argv := argv_of tb t c in
+      let m_res := resolve (dOpt dStr (dNth q 3)) (dStrs (dNth q 4)) c in
+      let i_res := dOpt (fun e => (dB (dNth e 0), dStr (dNth e 1))) (dNth q 5) in
+      let res_ok := match m_res, i_res with
+                    | None, None => true
+                    | Some (e1, p1), Some (e2, p2) => Bool.eqb e1 e2 && str_eqb p1 p2
+                    | _, _ => false end in
+      (((negb (dB (dNth q 6))) || strs_eqb m_argv (dStrs (dNth q 2))) && res_ok, VL [eStrs m_argv; eOpt (fun '(e, p) => VL [eB e; eStr p]) m_res])) (dL (dNth v 5)) in
+  let ok := forallb fst answers in
+  VL [eB true; VL (map snd answers); eB ok; eB ok].
+
 (* ---------- dispatch ---------- *)
 From Coq Require Import String.
 Open Scope string_scope.
@@ -457,4 +484,5 @@ Definition dispatch (name : str) (v : val) : val :=
   else if str_eqb name (bs "crash") then check_crash v
   else if str_eqb name (bs "cfgfile") then check_cfgfile v
   else if str_eqb name (bs "sched") then check_sched v
+  else if str_eqb name (bs "plan") then check_plan v
   else VL [].
